@@ -127,6 +127,16 @@ type hist struct {
 	forced   []txSpec
 	// genesis accounts whose recorded public key is somebody else's (address -> that key)
 	foreignKey map[string]key
+	// the node's transaction index (filled at Commit) and the committed transactions that may be replayed
+	index     *simapp.TxIndex
+	blockTxs  []sentTx
+	committed []sentTx
+}
+
+type sentTx struct {
+	bz  []byte
+	op  string
+	res abci.ResponseDeliverTx
 }
 
 func (h *hist) modAddr(name string) sdk.Address { return authTypes.NewModuleAddress(name) }
@@ -616,6 +626,13 @@ func (h *hist) genTx(pp posTypes.Params, govOwner map[string]key, daoOwner key, 
 		t.signer, t.attached = from, &from
 		t.msg = govTypes.MsgDAOTransfer{FromAddress: from.addr, ToAddress: to.addr, Amount: sdk.NewInt(amt), Action: action}
 		t.spec = fmt.Sprintf("dao:%s:%s:%d:%d", hx(from.addr), hx(to.addr), amt, an)
+		if r.Chance(1, 15) { // an amount that does not fit an int64: the stateless validation itself panics (Int64()), runTx must recover
+			huge := new(big.Int).Lsh(big.NewInt(1), uint(63+r.Intn(3)))
+			huge.Add(huge, big.NewInt(int64(r.Intn(5))))
+			t.msg = govTypes.MsgDAOTransfer{FromAddress: from.addr, ToAddress: to.addr, Amount: sdk.NewIntFromBigInt(huge), Action: action}
+			t.spec = fmt.Sprintf("dao:%s:%s:%s:%d", hx(from.addr), hx(to.addr), huge.String(), an)
+			stats["tx/basic-invalid/dao-amount-beyond-int64"]++
+		}
 		t.fee = govTypes.GovFeeMap[govTypes.MsgDAOTransferName]
 	default: // change param
 		pc := paramPool[r.Intn(len(paramPool))]
@@ -801,8 +818,13 @@ func runHistory(r *rng.R, id, maxBlocks int, wo, wi *bufio.Writer) {
 	fractions := []sdk.Dec{decRaw(1, 100), decRaw(1, 20), decRaw(1, 2), decRaw(1, 1), decRaw(0, 1), decRaw(1, 3), decRaw(999, 1000)}
 	pp := posTypes.DefaultParams()
 	pp.UnstakingTime = time.Duration(1+r.Intn(40)) * time.Second
+	zeroUnstaking := r.Chance(1, 10) // the stake is due back in the very block of the begin-unstake
 	if r.Chance(1, 3) {
 		pp.UnstakingTime += time.Duration(r.Intn(1000000000))
+	}
+	if zeroUnstaking {
+		pp.UnstakingTime = 0
+		stats["genesis/unstaking-time-0"]++
 	}
 	pp.MaxValidators = uint64(1 + r.Intn(6))
 	pp.StakeMinimum = 1000000
@@ -816,6 +838,19 @@ func runHistory(r *rng.R, id, maxBlocks int, wo, wi *bufio.Writer) {
 	ap.FeeMultiplier.Default = int64(1 + r.Intn(3))
 	if r.Bool() {
 		ap.FeeMultiplier.FeeMultis = []authTypes.FeeMultiplier{{Key: govTypes.MsgDAOTransferName, Multiplier: int64(1 + r.Intn(4))}}
+		if r.Bool() { // several entries, in any order: every one of them applies, not only the first
+			all := []string{govTypes.MsgDAOTransferName, govTypes.MsgChangeParamName, govTypes.MsgUpgradeName}
+			ap.FeeMultiplier.FeeMultis = nil
+			for _, j := range []int{r.Intn(3), r.Intn(3), r.Intn(3)} {
+				dupKey := false
+				for _, fm := range ap.FeeMultiplier.FeeMultis {
+					dupKey = dupKey || fm.Key == all[j]
+				}
+				if !dupKey {
+					ap.FeeMultiplier.FeeMultis = append(ap.FeeMultiplier.FeeMultis, authTypes.FeeMultiplier{Key: all[j], Multiplier: int64(1 + r.Intn(5))})
+				}
+			}
+		}
 	}
 	// ---------------- accounts, validators
 	var accs authTypes.Accounts
@@ -907,10 +942,20 @@ func runHistory(r *rng.R, id, maxBlocks int, wo, wi *bufio.Writer) {
 		stats["genesis/cutoff-tie"]++
 	}
 	daoTokens := int64(r.Intn(3000000))
+	if r.Chance(1, 4) {
+		daoTokens = 0 // the default genesis: the DAO starts empty
+	}
 	fee, pool, posm, dao := h.modAddr(auth.FeeCollectorName), h.modAddr(posTypes.StakedPoolName), h.modAddr(posTypes.ModuleName), h.modAddr(govTypes.DAOAccountName)
 	poolAcc := authTypes.NewEmptyModuleAccount(posTypes.StakedPoolName, auth.Burner, auth.Staking, auth.Minter)
 	_ = poolAcc.SetCoins(coins(staked))
-	accs = append(accs, poolAcc)
+	if r.Chance(1, 5) {
+		// the pool pre-funded as an ORDINARY account in the auth genesis (pos's InitGenesis allows it): the first use
+		// must turn it into the module account with its permissions, balance kept
+		accs = append(accs, &authTypes.BaseAccount{Address: pool, Coins: coins(staked)})
+		stats["genesis/pool-as-plain-account"]++
+	} else {
+		accs = append(accs, poolAcc)
+	}
 	acclines = append(acclines, accline{hx(pool), staked})
 	supply += staked
 	// ---------------- gov
@@ -957,7 +1002,9 @@ func runHistory(r *rng.R, id, maxBlocks int, wo, wi *bufio.Writer) {
 	stats["genesis/validators="+fmt.Sprint(len(vals))]++
 	stats["genesis/maxvals="+fmt.Sprint(pp.MaxValidators)]++
 	// ---------------- run
-	h.app = simapp.New(dbm.NewMemDB(), "tcp://127.0.0.1:1", gen)
+	h.index = simapp.NewTxIndex()
+	defer h.index.Close()
+	h.app = simapp.New(dbm.NewMemDB(), h.index.Addr(), gen)
 	h.now = time.Unix(1600000000, int64(r.Intn(1000000000))).UTC()
 	var initRes abci.ResponseInitChain
 	if try(func() { initRes = h.app.InitChain(abci.RequestInitChain{ChainId: simapp.ChainID, Time: time.Unix(1600000000, 0).UTC()}) }) {
@@ -1009,8 +1056,23 @@ func runHistory(r *rng.R, id, maxBlocks int, wo, wi *bufio.Writer) {
 				next = append(next, govTypes.ACLPair{Key: p.Key, Addr: a})
 				parts = append(parts, hx([]byte(p.Key))+"="+hx(a))
 			}
+			if len(next) > 0 && h.r.Chance(1, 3) { // the same key a second time, further down, with another address: the FIRST entry owns
+				p := next[h.r.Intn(len(next))]
+				a := h.keys[h.r.Intn(3)].addr
+				next = append(next, govTypes.ACLPair{Key: p.Key, Addr: a})
+				parts = append(parts, hx([]byte(p.Key))+"="+hx(a))
+				stats["tx/acl-with-a-key-listed-twice"]++
+			}
 			js, _ := h.app.Cdc.MarshalJSON(next)
 			return js, fmt.Sprintf("acl:%s:%s:1", strings.Join(parts, ";"), hx(js))
+		}},
+		{"gov/upgrade", func(h *hist) ([]byte, string) { // a struct value malformed only in its LAST field: nothing may change
+			js := []byte(fmt.Sprintf(`{"Height":"%d","Version":5}`, 700+h.r.Intn(100)))
+			return js, fmt.Sprintf("raw::%s:0", hx(js))
+		}},
+		{"auth/FeeMultipliers", func(h *hist) ([]byte, string) {
+			js := []byte(`{"fee_multiplier":[{"key":"send","multiplier":"7"}],"default":true}`)
+			return js, fmt.Sprintf("raw::%s:0", hx(js))
 		}},
 		{"pos/MaxValidators", func(h *hist) ([]byte, string) { // malformed value: accepted, nothing changes
 			js := []byte(`{"not":"a number"}`)
@@ -1078,12 +1140,17 @@ func runHistory(r *rng.R, id, maxBlocks int, wo, wi *bufio.Writer) {
 		if h.height > 1 {
 			for _, a := range addrs {
 				signed := !r.Chance(2, 5)
-				votes = append(votes, abci.VoteInfo{Validator: abci.Validator{Address: []byte(a), Power: signers[a]}, SignedLastBlock: signed})
+				vp := signers[a]
+				if r.Chance(1, 25) { // Tendermint reports a power whose token amount no longer fits 63 bits (a legal voting power)
+					vp = []int64{9223372036854, 9223372036855, 1 << 62}[r.Intn(3)]
+					stats["vote/huge-power"]++
+				}
+				votes = append(votes, abci.VoteInfo{Validator: abci.Validator{Address: []byte(a), Power: vp}, SignedLastBlock: signed})
 				s := 0
 				if signed {
 					s = 1
 				}
-				vparts = append(vparts, fmt.Sprintf("%s:%d:%d", hx([]byte(a)), signers[a], s))
+				vparts = append(vparts, fmt.Sprintf("%s:%d:%d", hx([]byte(a)), vp, s))
 			}
 		}
 		// ---- evidence (rare; may abort the block)
@@ -1094,8 +1161,8 @@ func runHistory(r *rng.R, id, maxBlocks int, wo, wi *bufio.Writer) {
 			skipEv := false
 			// mostly evidence the application can act on (known, not unstaked, not tombstoned);
 			// anything else aborts the block (and ends the history)
+			var cands []key
 			if r.Chance(9, 10) {
-				var cands []key
 				for _, c := range h.keys {
 					if v, ok := h.validator(c.addr); ok && v.status != 0 && !h.tombstoned(c.addr) {
 						cands = append(cands, c)
@@ -1127,9 +1194,22 @@ func runHistory(r *rng.R, id, maxBlocks int, wo, wi *bufio.Writer) {
 			if v, ok := h.validator(k.addr); ok && r.Bool() {
 				pw = v.tokens / 1000000
 			}
+			if r.Chance(1, 8) { // a power whose token amount no longer fits 63 bits (still a legal voting power)
+				pw = []int64{9223372036854, 9223372036855, 1 << 62, 9223372036854775807}[r.Intn(4)]
+				stats["evidence/huge-power"]++
+			}
 			if !skipEv {
 				evs = append(evs, abci.Evidence{Type: tmtypes.ABCIEvidenceTypeDuplicateVote, Validator: abci.Validator{Address: k.addr, Power: pw}, Height: evH, Time: evTime})
 				eparts = append(eparts, fmt.Sprintf("%s:%d:%d:%d", hx(k.addr), evH, evTime.UnixNano(), pw))
+				// evidence against further validators in the same block: handled in the order given
+				for _, c := range cands {
+					if !c.addr.Equals(k.addr) && r.Chance(1, 2) {
+						pw2 := int64(1 + r.Intn(5))
+						evs = append(evs, abci.Evidence{Type: tmtypes.ABCIEvidenceTypeDuplicateVote, Validator: abci.Validator{Address: c.addr, Power: pw2}, Height: evH, Time: evTime})
+						eparts = append(eparts, fmt.Sprintf("%s:%d:%d:%d", hx(c.addr), evH, evTime.UnixNano(), pw2))
+						stats["evidence/second-validator-in-the-block"]++
+					}
+				}
 			}
 		}
 		prop := h.pick().addr
@@ -1175,6 +1255,11 @@ func runHistory(r *rng.R, id, maxBlocks int, wo, wi *bufio.Writer) {
 			if len(cands) > 0 {
 				k := cands[r.Intn(len(cands))]
 				sev := fractions[r.Intn(len(fractions))]
+				if v, ok := h.validator(k.addr); ok && v.tokens >= 1000000 && r.Chance(1, 6) {
+					// a severity that asks for exactly ONE token (or just under): power * 10^6 * severity = 1
+					sev = decRaw(1, (v.tokens/1000000)*1000000)
+					stats["burn/one-token"]++
+				}
 				op := fmt.Sprintf("BU %s %s", hx(k.addr), sev.Int.String())
 				if try(func() { h.app.PK.BurnValidator(ctx, k.addr, sev) }) {
 					h.reqs = append(h.reqs, request{kind: "BU", addr: k.addr, sev: sev, hdr: hdr, resA: "panic"})
@@ -1190,7 +1275,18 @@ func runHistory(r *rng.R, id, maxBlocks int, wo, wi *bufio.Writer) {
 		for i := r.Intn(5); i > 0 || len(h.forced) > 0; i-- {
 			t := h.genTx(curPP, govOwner, daoOwner, paramPool)
 			bz, op := h.buildTx(t)
+			if len(h.forced) == 0 && len(h.committed) > 0 && r.Chance(1, 10) {
+				// the very bytes of a transaction of an earlier, committed block are sent again: the index knows them,
+				// whatever their result was then
+				old := h.committed[r.Intn(len(h.committed))]
+				bz, op = old.bz, strings.Replace(old.op, " dup=0", " dup=1", 1)
+				t.spec = strings.SplitN(strings.TrimPrefix(op, "TX "), " ", 2)[0]
+				stats[fmt.Sprintf("tx/replayed/earlier-code-%d", old.res.Code)]++
+			}
 			res := h.app.DeliverTx(abci.RequestDeliverTx{Tx: bz})
+			if !strings.Contains(op, " dup=1") {
+				h.blockTxs = append(h.blockTxs, sentTx{bz, op, res})
+			}
 			rs := "ok"
 			if res.Code != 0 {
 				rs = "err"
@@ -1243,6 +1339,11 @@ func runHistory(r *rng.R, id, maxBlocks int, wo, wi *bufio.Writer) {
 			break
 		}
 		h.reqs = append(h.reqs, request{kind: "CM", resA: hx(cm.Data)})
+		for _, x := range h.blockTxs { // Tendermint indexes every transaction of a committed block, with its result
+			h.index.Add(x.bz, h.height, x.res)
+			h.committed = append(h.committed, x)
+		}
+		h.blockTxs = nil
 		committed = true
 		h.emit("CM", "ok")
 	}
@@ -1396,7 +1497,12 @@ func deliverString(r abci.ResponseDeliverTx) string {
 func (h *hist) replay(variant string, cp *abci.ConsensusParams, ref []string) (string, []string) {
 	var got_all []string
 	db := dbm.NewMemDB()
-	app := simapp.New(db, "tcp://127.0.0.1:1", h.gen)
+	ix := simapp.NewTxIndex()
+	defer ix.Close()
+	app := simapp.New(db, ix.Addr(), h.gen)
+	var blockTxs []sentTx
+	seen := map[string]bool{}
+	curHeight := int64(0)
 	rr := rng.New(uint64(h.id)*7919 + uint64(len(variant)))
 	restartAt := -1
 	if variant == "restart" {
@@ -1460,6 +1566,7 @@ func (h *hist) replay(variant string, cp *abci.ConsensusParams, ref []string) (s
 				got = updatesString(res.Validators)
 			}
 		case "BB":
+			curHeight = q.hdr.Height
 			var res abci.ResponseBeginBlock
 			if try(func() { res = app.BeginBlock(q.bb) }) {
 				got = "ABORT"
@@ -1478,7 +1585,11 @@ func (h *hist) replay(variant string, cp *abci.ConsensusParams, ref []string) (s
 				got = "ok"
 			}
 		case "TX":
-			got = deliverString(app.DeliverTx(abci.RequestDeliverTx{Tx: q.tx}))
+			res := app.DeliverTx(abci.RequestDeliverTx{Tx: q.tx})
+			got = deliverString(res)
+			if !seen[string(q.tx)] {
+				blockTxs = append(blockTxs, sentTx{bz: q.tx, res: res})
+			}
 		case "EB":
 			var res abci.ResponseEndBlock
 			if try(func() { res = app.EndBlock(abci.RequestEndBlock{Height: q.amt}) }) {
@@ -1493,6 +1604,11 @@ func (h *hist) replay(variant string, cp *abci.ConsensusParams, ref []string) (s
 				got = "ABORT"
 			} else {
 				got = hx(res.Data)
+				for _, x := range blockTxs {
+					ix.Add(x.bz, curHeight, x.res)
+					seen[string(x.bz)] = true
+				}
+				blockTxs = nil
 			}
 		}
 		got_all = append(got_all, got)
@@ -1515,7 +1631,7 @@ func (h *hist) replay(variant string, cp *abci.ConsensusParams, ref []string) (s
 		}
 		if i == restartAt {
 			// stop after this Commit and reopen from the database
-			app = simapp.New(db, "tcp://127.0.0.1:1", h.gen)
+			app = simapp.New(db, ix.Addr(), h.gen)
 			if app.LastBlockHeight() == 0 {
 				return fmt.Sprintf("DIVERGED op=%d kind=restart reopened at height 0", i), got_all
 			}
